@@ -134,6 +134,15 @@ def gen(chk):
             for b in KINDS:
                 out.append((site, [4, 5, 6], {6} if "authorised_but_not_in_table" in (a, b) else set(), 2,
                             ["valid", a, b], False))
+    # one signer short of the threshold, with a repeated signer in every position (adjacent, interleaved with other
+    # valid signers, separated by signatures that do not count): threshold 3 and 4 at every site
+    short = ["valid", "valid_again", "corrupted", "unknown_key"]
+    for site in SITES:
+        for tail in itertools.product(short, repeat=3):
+            out.append((site, [4, 5, 6], set(), 3, ["valid"] + list(tail), False))
+        for tail in itertools.product(["valid", "valid_again"], repeat=4):
+            out.append((site, [4, 5, 6, 10 if site not in ("hop_old_keys", "hop_new_keys") else 11], set(), 4,
+                        ["valid"] + list(tail), False))
     n = 1200 if chk.tier == "quick" else 20000
     keypool = [4, 5, 6, 10, 11, 12, 13]
     for _ in range(n):
